@@ -3,6 +3,7 @@
    is such a worker fed by the stage before it). *)
 From Coq Require Import Arith List Bool.
 From PDB Require Import Model.Workers Proofs.WorkersProofs.
+From PDB Require Model.Backpressure Proofs.BackpressureProofs.
 Import ListNotations.
 
 (* No lost wake-up, for EVERY interleaving of producer signals, shutdown requests and worker moves:
@@ -38,3 +39,32 @@ Proof. vm_compute. repeat split; reflexivity. Qed.
 Print Assumptions C15_never_blocked_with_work.
 Print Assumptions C15_progress.
 Print Assumptions C15_shutdown_terminates.
+
+Module BP.
+Import PDB.Model.Backpressure PDB.Proofs.BackpressureProofs.
+(* The back-pressure wait (the enact stage waits while too many logs await cleanup). With shutdown()
+   signalling that wait too (the repair of finding F21): in EVERY reachable state in which the enactor is
+   blocked, one round of the cleanup worker's own enabled moves sets the flag it waits on, and then its
+   wait returns - whatever interleaving of enacting, cleanup passes (each counting the logs at its start)
+   and the shutdown request led there. *)
+Theorem C15_backpressure_wait_is_signalled :
+  forall (n : nat) (l : list bact), let s := brun true (binit n) l in
+  Backpressure.epc s = EBlocked -> bflag (brun true s [ACIdle; ACWake; ACStart; ACEnd]) = true.
+Proof. exact blocked_enactor_is_signalled. Qed.
+
+Theorem C15_signalled_wait_returns :
+  forall s, Backpressure.epc s = EBlocked -> bflag s = true -> bstep true s AWake <> None.
+Proof. exact signalled_enactor_moves. Qed.
+
+(* Without that signal - the code as it was - a dead-lock IS reachable: the schedule below (found on the
+   implementation as a hanging drop, about one run in 4000) leaves the enactor blocked for ever. *)
+Theorem C15_backpressure_deadlock_without_signal_refuted :
+  let s := brun false (binit 3) f21_schedule in
+  Backpressure.epc s = EBlocked /\ cpc s = CDone /\ bflag s = false /\
+  forall l, Backpressure.epc (brun false s l) = EBlocked.
+Proof. exact deadlock_without_signal_refuted. Qed.
+
+End BP.
+Print Assumptions BP.C15_backpressure_wait_is_signalled.
+Print Assumptions BP.C15_signalled_wait_returns.
+Print Assumptions BP.C15_backpressure_deadlock_without_signal_refuted.
